@@ -13,7 +13,9 @@ RULE = ('pxssh.login() (real code, spawned through the simulated pty seam) again
         'question; login()==True => the server is in its shell state and, with prompt reset, the unique prompt is in force, after '
         'which prompt() returns exactly the echoed command plus its output for a few generated commands; every other dialogue ends '
         'in a pexpect.ExceptionPexpect subclass within the sum of the configured timeouts; never another exception type, never a '
-        'hang. Virtual time makes the 10 s / 30 s timeouts free. Non-trivial: script of >= 2 steps; distinct by trace digest')
+        'hang. Virtual time makes the 10 s / 30 s timeouts free. Added later: ssh_key given as a file path, sessions whose local '
+        'terminal does not echo, type-ahead (two commands outstanding) with the first unique prompt aimed at a 2000-character read '
+        'boundary of the queued output, a command that hangs. Non-trivial: script of >= 2 steps; distinct by trace digest')
 
 ASSUME = ['the ssh client and remote shell are a scripted stub (transcript-recording); real ssh is not exercised',
           'the stub disables terminal echo while it reads a password, as ssh does']
